@@ -75,7 +75,8 @@ def counts(errs):
 def run(rep, tier):
     quick = tier == 'quick'
     svh = core.Svh('o1', timeout=60)
-    rep.set_proof(core.prove(['Properties_C16.v']))
+    from checks import c11
+    rep.set_proof(c11.prove_shared(['Properties_C16.v']))
     rep.trusted += ['Coq 8.16.1 kernel', 'extraction + runner/main.ml', 'harness/c15.cc (demsampler)', 'decoders from doc/result_formats.md']
     rep.assumptions += ['RNG quality is tested statistically (7 sigma), not proved']
     rng = rep.rng()
